@@ -3,6 +3,7 @@ from rng import hx, hexlist
 from props.ctlgen import *
 import props.client_props as CP
 import props.c11 as C11
+import props.c05 as C05
 
 DIALOGUES = [
     b"220 hi\r\n331 pw\r\n230 ok\r\n",
@@ -71,6 +72,7 @@ PROP = {
     "id": "C08",
     "stages": [{"name": "ctl", "target": "h_ctl", "gen": gen},
                {"name": "ctl-asan", "target": "h_ctl", "sanitize": True, "gen": gen},
+               {"name": "ascii-asan", "target": "h_pure", "sanitize": True, "gen": C05.gen_asan},
                {"name": "client", "target": "h_client", "gen": gen_client, "shard": 12},
                {"name": "e2e", "target": "h_e2e", "gen": gen_e2e, "shard": 6}],
     "trivial_tags": [],
